@@ -3,7 +3,10 @@
 import glob, json, os
 root = os.path.dirname(os.path.dirname(os.path.abspath(__file__)))
 checks, claimed = [], set()
+enabled = [l.strip() for l in open(os.path.join(root, "checks", "enabled.txt")) if l.strip()]
 for p in sorted(glob.glob(os.path.join(root, "checks", "C*.json"))):
+    if os.path.basename(p)[:-5] not in enabled:
+        continue
     s = json.load(open(p))
     pid = s["property_id"]
     claimed.add(pid)
